@@ -94,7 +94,10 @@ def _binary(col, rule="C04.R1"):
                     ok_order, facts = False, f"returns {S.show(a)}"
                     continue
                 ks.add(a[1][1])
-                if a[2] != want_args or a[3]:
+                ctor = repo.lookup(rm.cls(a[1][1]), "__cinit__") or repo.lookup(rm.cls(a[1][1]), "__init__")
+                names = A.params(ctor[1])[1:] if ctor else []
+                got_args = S.call_args(a, names) if names else (a[2] if not a[3] else None)
+                if got_args != want_args:
                     ok_order, facts = False, f"returns {S.show(a)}"
         col.add(rule, f"{q}#operand-order", ok_order, sx.loc(rets[0]),
                 f"{dunder} builds its node with the operands in Python's order ({'self OP other' if mode == 'fwd' else 'other OP self'}) "
